@@ -98,6 +98,7 @@ type bsCfg struct {
 	Ops        []bsOp
 	Ticks      int // max number of T actions on a path (0 = none)
 	TickNs     int64
+	Burst      int     // U action: this many consecutive tick periods (time advances TickNs, due tickers fire) in one step; at most once per path
 	Advs       []int64 // A actions offered
 	MaxAdv     int     // max number of A actions on a path
 	Depth      int
@@ -124,6 +125,8 @@ type bsWorld struct {
 	nextV  int
 	ticks  int
 	advs   int
+	bursts int
+	stalls [][2]int64 // virtual-time intervals that passed WITHOUT tick delivery (A / D actions): maintenance stalled
 	err    string
 	// departed incarnations are tracked by the oracles through recs + notes
 	noteStep []int   // logical step of each listener call
@@ -379,6 +382,22 @@ func (w *bsWorld) apply(a string) bool {
 			w.err = "ticker step ended with " + st + " at " + w.ticker.What + " " + w.ticker.Obj
 		}
 		return true
+	case 'U':
+		if w.cfg.Burst == 0 || w.bursts >= 1 {
+			return false
+		}
+		w.bursts++
+		w.step++
+		for i := 0; i < w.cfg.Burst; i++ {
+			vrt.Advance(w.cfg.TickNs)
+			vrt.Tick()
+			st := vrt.StepThread(w.ticker, bsAtOuterSelect)
+			if st != "stopped" && st != "blocked" {
+				w.err = "ticker step ended with " + st + " at " + w.ticker.What + " " + w.ticker.Obj
+				break
+			}
+		}
+		return true
 	case 'A':
 		if w.advs >= w.cfg.MaxAdv {
 			return false
@@ -386,7 +405,9 @@ func (w *bsWorld) apply(a string) bool {
 		w.advs++
 		d, _ := strconv.ParseInt(a[1:], 10, 64)
 		w.step++
+		t0 := vrt.NowNanos()
 		vrt.Advance(d)
+		w.stalls = append(w.stalls, [2]int64{t0, vrt.NowNanos()})
 		return true
 	case 'D':
 		if w.advs >= w.cfg.MaxAdv {
@@ -399,7 +420,9 @@ func (w *bsWorld) apply(a string) bool {
 		}
 		w.advs++
 		w.step++
+		t0 := vrt.NowNanos()
 		vrt.Advance(target - vrt.NowNanos())
+		w.stalls = append(w.stalls, [2]int64{t0, vrt.NowNanos()})
 		return true
 	}
 	panic("bigstep: unknown action " + a)
@@ -441,6 +464,9 @@ func (w *bsWorld) enabled() []string {
 	if w.ticks < w.cfg.Ticks {
 		r = append(r, "T")
 	}
+	if w.cfg.Burst > 0 && w.bursts < 1 {
+		r = append(r, "U")
+	}
 	if w.advs < w.cfg.MaxAdv {
 		for _, d := range w.cfg.Advs {
 			r = append(r, fmt.Sprintf("A%d", d))
@@ -452,6 +478,24 @@ func (w *bsWorld) enabled() []string {
 		}
 	}
 	return r
+}
+
+// stalledIn: how much of [from,to] passed without tick delivery (A / D actions)
+func (w *bsWorld) stalledIn(from, to int64) int64 {
+	var sum int64
+	for _, iv := range w.stalls {
+		a, b := iv[0], iv[1]
+		if a < from {
+			a = from
+		}
+		if b > to {
+			b = to
+		}
+		if b > a {
+			sum += b - a
+		}
+	}
+	return sum
 }
 
 // drain brings the store to quiescence: every pending call finished, queue empty.
